@@ -168,6 +168,7 @@ func checkC07(c *Ctx, r *Report) {
 	checkResponseAlwaysDecoded(c, r)
 
 	checkMinimalEncodings(c, r, nil)
+	checkRejectsShort(c, r)
 
 	checkMessageChecksums(c, r)
 
@@ -248,6 +249,34 @@ func checkMessageChecksums(c *Ctx, r *Report) {
 // checkMinimalEncodings: the decoders accept the specification's boundary encodings (shared, for
 // the record layers, with C14 — "any mix of record types … all ID-string encodings and
 // lengths" — and C20 — "ID strings of every length").
+// shortEncodings: lengths below a layer's minimum (for the stated bytes). No success path may
+// be satisfiable for them.
+var shortEncodings = []minimalEncoding{
+	{Pkg: "pkg/ipmi", Type: "GetSessionInfoRsp", Method: "DecodeFromBytes", Name: "4-byte body with handle 0", Len: 4, Bytes: map[int64]int64{0: 0}, Ref: "IPMI v2.0 §22.20: 3 bytes without an active session, at least 6 with one"},
+	{Pkg: "pkg/ipmi", Type: "GetSessionInfoRsp", Method: "DecodeFromBytes", Name: "5-byte body with handle 0", Len: 5, Bytes: map[int64]int64{0: 0}, Ref: "IPMI v2.0 §22.20"},
+	{Pkg: "pkg/ipmi", Type: "GetSessionInfoRsp", Method: "DecodeFromBytes", Name: "5-byte body with handle 1", Len: 5, Bytes: map[int64]int64{0: 1}, Ref: "IPMI v2.0 §22.20"},
+	{Pkg: "pkg/ipmi", Type: "GetSessionInfoRsp", Method: "DecodeFromBytes", Name: "2-byte body", Len: 2, Ref: "IPMI v2.0 §22.20"},
+	{Pkg: "pkg/ipmi", Type: "GetDeviceIDRsp", Method: "DecodeFromBytes", Name: "10-byte body", Len: 10, Ref: "IPMI v2.0 §20.1: 11 bytes without the auxiliary revision"},
+	{Pkg: "pkg/ipmi", Type: "GetChannelAuthenticationCapabilitiesRsp", Method: "DecodeFromBytes", Name: "7-byte body", Len: 7, Ref: "IPMI v2.0 §22.13: 8 bytes"},
+	{Pkg: "pkg/ipmi", Type: "GetSystemGUIDRsp", Method: "DecodeFromBytes", Name: "15-byte body", Len: 15, Ref: "IPMI v2.0 §22.14: 16 bytes"},
+	{Pkg: "pkg/ipmi", Type: "GetSDRRepositoryInfoRsp", Method: "DecodeFromBytes", Name: "13-byte body", Len: 13, Ref: "IPMI v2.0 §33.9: 14 bytes"},
+}
+
+// checkRejectsShort: "a body shorter than the layer's minimum is rejected with an error rather
+// than decoded", asked of engine E1 per decoder and length: every success path is infeasible.
+func checkRejectsShort(c *Ctx, r *Report) {
+	r.Rule("rejects-short-body", "no success path of the decoder is satisfiable for a body shorter than the layer's minimum", 4)
+	for _, m := range shortEncodings {
+		fn := c.Method(m.Pkg, m.Type, m.Method)
+		if fn == nil {
+			r.Lost(m.Type + "." + m.Method)
+			continue
+		}
+		ok, n := acceptsMinimal(c, fn, m)
+		r.Check(!ok, m.Type+"."+m.Method+"|rejects "+m.Name, fn.Pos(), fmt.Sprintf("rejected (%d success paths, none satisfiable)", n), fmt.Sprintf("a success path accepts a %s (%s): a body shorter than the minimum is decoded, not rejected", m.Name, m.Ref))
+	}
+}
+
 func checkMinimalEncodings(c *Ctx, r *Report, only func(minimalEncoding) bool) {
 	r.Rule("accepts-minimal-encoding", "the decoder has a success path for the specification's shortest, longest and boundary encodings", 7)
 	for _, m := range minimalEncodings {
